@@ -604,3 +604,9 @@ impl fmt::Debug for Pong {
         fmt.debug_struct("Pong").finish()
     }
 }
+
+#[cfg(feature = "verif")]
+#[allow(missing_docs, dead_code, unused_imports)]
+pub(crate) mod verif_h {
+    include!(concat!(env!("H2_VERIF_DIR"), "/harness/share.rs"));
+}
